@@ -540,6 +540,7 @@ func runC03(cases string, res *Result) {
 	c03DateValues(res, dateEng)
 	c03MapsThatChange(res)
 	c03IdenticallyBuiltEngines(res)
+	c03AttributeHistory(res)
 	for _, cl := range []string{"hash-duplicate-key", "key-string-collision", "toplevel-address", "merge-filter-key-collision"} {
 		bad := 0
 		for _, f := range res.Findings {
@@ -963,5 +964,49 @@ func c03IdenticallyBuiltEngines(res *Result) {
 	if len(seen) > 1 {
 		res.add(Finding{Kind: "oracle", Where: "identically-built-engines", Case: Case{"stream": "identically-built-engines", "tpl": src}, Expected: first + " from every engine",
 			Observed: strings.Join(c03Set(seen), " | "), Detail: "48 engines configured by the same calls (extensions that define the same names, two of them registered a second time) render one template and context differently"})
+	}
+}
+
+type c03LabA struct{ N string }
+type c03LabB struct{ N string }
+type c03LabC struct{ N string }
+
+func (a *c03LabA) Label() string { return "label-" + a.N }
+func (a c03LabA) Plain() string  { return "plain-" + a.N }
+func (a *c03LabB) Label() string { return "label-" + a.N }
+func (a c03LabB) Plain() string  { return "plain-" + a.N }
+func (a *c03LabC) Label() string { return "label-" + a.N }
+func (a c03LabC) Plain() string  { return "plain-" + a.N }
+
+// c03AttributeHistory: the bytes are determined by template and context, not by what the process rendered before:
+// three types of one shape, one first seen through a pointer, one first seen by value, one seen by value on another
+// engine; afterwards the same template with a pointer of each gives the same output.
+func c03AttributeHistory(res *Result) {
+	const src = "{{ b.Label }}|{{ b.Plain }}|{{ b.N }}"
+	render := func(e *twig.Engine, v interface{}) string {
+		out, err := e.Render("t", map[string]interface{}{"b": v})
+		if err != nil {
+			return "error: " + err.Error()
+		}
+		return out
+	}
+	eng, other := twig.New(), twig.New()
+	eng.RegisterString("t", src)
+	other.RegisterString("t", src)
+	res.Hist["stream:attribute-history"]++
+	render(eng, &c03LabA{"x"})  // A: first seen through a pointer
+	render(eng, c03LabB{"x"})   // B: first seen by value
+	render(other, c03LabC{"x"}) // C: first seen by value, on another engine
+	outs := []string{render(eng, &c03LabA{"x"}), render(eng, &c03LabB{"x"}), render(eng, &c03LabC{"x"})}
+	res.Evaluations += 3
+	if outs[0] != outs[1] || outs[0] != outs[2] || outs[0] != "label-x|plain-x|x" {
+		res.add(Finding{Kind: "oracle", Where: "attribute-history", Case: Case{"stream": "attribute-history", "tpl": src}, Expected: "label-x|plain-x|x for all three",
+			Observed: strings.Join(outs, " / "), Detail: "three struct types of one shape differ only in how the process first met them (pointer, value, value on another engine); a pointer of each renders differently"})
+	}
+	vals := []string{render(eng, c03LabA{"y"}), render(eng, c03LabB{"y"}), render(eng, c03LabC{"y"})}
+	res.Evaluations += 3
+	if vals[0] != vals[1] || vals[0] != vals[2] {
+		res.add(Finding{Kind: "oracle", Where: "attribute-history/by-value", Case: Case{"stream": "attribute-history", "tpl": src}, Expected: vals[0] + " for all three", Observed: strings.Join(vals, " / "),
+			Detail: "the same three types by value"})
 	}
 }
